@@ -542,7 +542,7 @@ def type_collision(model_events, k):
 
 # ================================================================================================ part B: gate histories
 B_FAMILIES = ["eq-angle-diff-duration", "eq-duration-diff-angle", "cr-tcr", "interleaved", "multi-gateset", "warm-exact",
-              "typed-theta", "signed-zero-theta", "random"]
+              "typed-theta", "signed-zero-theta", "periodic-angle", "random"]
 SINGLE = ["X", "SX", "single_qubit_gate"]
 TWO = ["CNOT", "CNOT_inv", "ECR", "ECR_inv", "CR"]
 NOISE = ["relaxation", "bitflip", "depolarizing"]
@@ -646,6 +646,21 @@ def gen_gate_case(rng, family, set_descs, idx):
         if rng.random() < 0.5:
             hist.append([g, "CR", gate_args("CR", rng, theta=typed(rng, v))])
         final = [g, "single_qubit_gate", dict(rest, theta=fl(v, rng.choice(["float", "float", "np.float64"])))]
+    elif family == "periodic-angle":
+        # angles that differ by whole periods of the trigonometric integrands (2 pi, 4 pi, pi): equal as rotations modulo a period,
+        # different as pulses - nothing computed for one may be reused for the other
+        g = pick()
+        base_t = rng.choice([math.pi / 2, math.pi / 4, -math.pi / 2, 0.5, rng.uniform(-3, 3)])
+        shifts = [0.0, 4 * math.pi, -4 * math.pi, 2 * math.pi, 8 * math.pi, math.pi]
+        rest = gate_args("single_qubit_gate", rng)
+        for _ in range(rng.randint(2, 6)):
+            th = fl(base_t + rng.choice(shifts))
+            if rng.random() < 0.75:
+                hist.append([g, "single_qubit_gate", dict(rest if rng.random() < 0.6 else gate_args("single_qubit_gate", rng), theta=th)])
+            else:
+                hist.append([g, "CR", gate_args("CR", rng, theta=th)])
+        final = rng.choice([[g, "single_qubit_gate", dict(rest, theta=fl(base_t + rng.choice(shifts[1:])))],
+                            [g, "CR", gate_args("CR", rng, theta=fl(base_t + rng.choice(shifts[1:])))]])
     elif family == "signed-zero-theta":
         g = pick()
         zs = [fl(0.0), fl(-0.0), fl(0, "int"), fl(-0.0, "np.float64")]
@@ -947,6 +962,26 @@ def run_sim_case(case, ex, pool, pristine=None):
                        "new simulator built on that gate set: an earlier run's gate set is still in use")
     elif r4 != r1:
         out["fail"] = "a run through a pass-through recording proxy of the gate set differs (the shot loop depends on more than the gate set's methods)"
+    if out["fail"] is None:
+        # the SAME circuit object edited in place between two runs of the same simulator (read-out removed, gates appended, read out
+        # again): the run must simulate the circuit as it is now - exactly what new objects give for a new circuit of that content
+        extra = [["x", [min(1, n - 1)]], ["rz", [0], 0.37], ["sx", [0]]]
+        for _ in range(n):
+            qc.data.pop()
+        for op in extra:
+            (qc.rz(op[2], op[1][0]) if op[0] == "rz" else getattr(qc, op[0])(op[1][0]))
+        for q in range(n):
+            qc.measure(q, q)
+        r7, st7 = run(sim, case["seed"])
+        case8 = dict(case, ops=case["ops"] + extra)
+        qc_keep, qc = qc, build_circuit(case8)
+        sim8 = MrAndersonSimulator(gates=fresh_gate_set(case["set"]), CircuitClass=getattr(cm, case["cls"]), parallel=False)
+        r8, st8 = run(sim8, case["seed"])
+        qc = qc_keep
+        if r7 != r8 or not same_state(st7, st8):
+            out["fail"] = ("the circuit object was edited in place between two runs of one simulator (read-out removed, x / rz / sx appended, read "
+                           "out again): the second run differs from the run of new objects on a new circuit with the same content after the "
+                           "same seed - the simulator kept something of the earlier run")
     out.update(r1=r1, r2=r2, r3=r3, calls=calls, draws=draws, cache_growth=cache_after - cache_before)
     return out
 
